@@ -205,6 +205,52 @@ CLAIMED = {
         "(INTERVAL phase of secondary or shifted rules is not preserved by the written form).",
    technique="Lean 4 proof (string-level round trip by induction over the printed parts) + differential correspondence + README oracle on the implementation",
    design="§5 C05, §9"),
+ "C16": dict(
+   text="Lean theorems (Echse.Props.C16) about the transcribed rule engine - all seven fillers (rrul_fill_yly/mly/wly/dly/Hly/Mly/Sly with their "
+        "candidate builders, BYSETPOS, SHIFT, BYEASTER) and the rule stream on top (refill with the held-back seed, COUNT bookkeeping, sort, "
+        "pop): for EVERY parser-producible Gregorian rule and DTSTART, every prefix of the stream, across any number of refills, is strictly "
+        "ascending, not before DTSTART, not after UNTIL, at most COUNT long, ends after COUNT, and consists of real dates; per filler call: "
+        "FillOk (length, bounds, sanity, order). Hypotheses: no BYHOUR/BYMINUTE/BYSECOND on a DATE-valued DTSTART (KindOk; counterexample "
+        "proved), SHIFT a pure day shift up to 365 days or a pure business-day shift up to 250 (ShiftOk; counterexample proved). The models "
+        "are compared with the real fillers call by call (op r.fill, chains imitating refills) and with the real stream (op r.strm); the "
+        "invariants are also checked on the real streams of the full accepted language (SCALE=HIJRI, TZID, SHIFT, BYEASTER) over thousands "
+        "of occurrences.",
+   note="Trusted: Lean kernel; harness hx_strm.c; the transcriptions Echse/Model/Rr*.lean (differentially validated, 0 differences on tens of "
+        "thousands of calls). Not covered by the theorems (oracle on the implementation only): SCALE=HIJRI rules, zoned DTSTART (zone "
+        "conversion and duplicate removal in refill), SHIFT with both a day and a business-day part, several RRULEs per event (mux: C03).",
+   technique="Lean 4 proof (loop invariants over fuelled transcriptions, stream invariant by induction over pops) + call-level differential correspondence + invariant oracle on the implementation",
+   design="§5 C16, §9"),
+ "C09": dict(
+   text="Lean theorems (Echse.Props.C09) about the same transcribed fillers, whose loops carry explicit fuel: for EVERY parser-producible rule "
+        "and seed every filler returns (the fuel is never what ends a loop: per-filler `_total` theorems, `fuel_irrelevant` for the yearly and "
+        "monthly loops), writes at most the 64 instants asked for (so the group stamps at +64 stay inside the 128-entry cache), a fill that "
+        "finds nothing or fewer than 64 ends the stream, never-matching rules answer end-of-stream. On the real code: hostile RRULE texts "
+        "(INTERVAL 0/-1/2^31/2^32, full BYHOUR x BYMINUTE x BYSECOND products, BYDAY/BYSETPOS/BYEASTER lists beyond the native slots, "
+        "out-of-range ordinals, damaged bytes, DTSTART at the range edges and invalid dates) through parser and stream under ASan/UBSan with "
+        "a work budget per stream; rules the RFC reference judges empty must end at once; calendars with several RRULE/EXRULE/RDATE lines "
+        "through the whole parser.",
+   note="Trusted: Lean kernel; harness hx_strm.c; sanitizers (-fno-sanitize=shift); the transcriptions Echse/Model/Rr*.lean. Memory safety "
+        "of the C code itself is observed (sanitizers on the inputs run), not proved; the theorems bound the number of writes and loop rounds "
+        "of the model. `Bounded work' on the real code means 200 occurrences within 5 s in the sanitizer build.",
+   technique="Lean 4 proof (measure arguments for every fuelled loop) + sanitizer run of hostile inputs with a work budget + differential correspondence",
+   design="§5 C09, §9"),
+ "C01": dict(
+   text="Lean theorems (Echse.Props.C01): a specification of RFC 5545 recurrence sets written from the RFC (Echse/Spec/Rfc5545.lean: instances per "
+        "frequency by the expand/limit table, Monday-based weeks, BYSETPOS within the period, DTSTART, UNTIL) and, for the transcribed "
+        "fillers of FREQ=SECONDLY, MINUTELY, HOURLY, DAILY and WEEKLY, `none extra' (everything a call writes is an instance and passes "
+        "BYSETPOS) and `none missing' (every instance not before the seed, not after UNTIL/2099 is written, or the cache is full and the "
+        "instance comes later) for EVERY parser-producible rule (any INTERVAL, BYMONTH, BYMONTHDAY incl. negative, BYDAY, BYYEARDAY, "
+        "BYHOUR/BYMINUTE/BYSECOND, BYSETPOS, COUNT, UNTIL) and every seed 1901-2099 - including the skip-ahead over filtered "
+        "days/hours/minutes, the month/year carry, the Monday alignment of weeks, the daily-to-weekly hand-over. YEARLY and MONTHLY are "
+        "covered by the reference-expander oracle and the correspondence run (their Lean equivalence is in progress, see DESIGN §9). "
+        "On the real code: generated rules of all seven frequencies through the real parser and stream, 150-200 occurrences each across "
+        "refills, compared one by one with an independent RFC 5545 reference expander; parsed rule structs compared with the expected "
+        "encoding; the same events through the whole calendar parser.",
+   note="Trusted: Lean kernel; Spec/Rfc5545.lean and Spec/Cal.lean (the reading of the RFC); vlib/rfc5545.py (independent second reading, "
+        "used as oracle); harness hx_strm.c; the transcriptions Echse/Model/Rr*.lean. Hypothesis of the theorems: no BYHOUR/BYMINUTE/BYSECOND "
+        "on a DATE-valued DTSTART (the code does not ignore them as the RFC demands; recorded). Zoned DTSTART is judged by the oracle only.",
+   technique="Lean 4 proof (loop invariants linking incremental date arithmetic to day numbers; completeness by reachability of every instance) + reference-expander oracle + differential correspondence",
+   design="§5 C01, §9"),
 }
 
 checks = []
@@ -232,7 +278,7 @@ m = {
     "hooks": {"guard": "ECHSE_VERIF",
               "enable": "harness/hx_strm.c #includes evical.c from a scratch copy of /repo/src compiled with -DECHSE_VERIF and provides echse_verif_line(); all other objects are compiled without the guard",
               "baseline_off_cmd": "make -C /repo check",
-              "source_commits": ["e4779d8"], "add_only": True},
+              "source_commits": ["e34d23c"], "add_only": True},
     "engines": [{"name": "lean-proof+correspondence", "path": "/verif/check.py",
                  "serves_properties": [c["property_id"] for c in checks],
                  "kind_free_text": "Lean 4 theorems about an executable model (lean/Echse), tied to the C code by "
